@@ -339,8 +339,9 @@ def real_cases(draw):
         c["ndir"] = draw(st.integers(0, 2))
     else:
         c["recipe"] = draw(st.one_of(
-            gm.recipes2d(types=["TRI3", "TRI6", "TRI10"], hmin=5, hmax=10),
-            gm.recipes2d(types=["QUAD4", "QUAD8", "QUAD9"], hmin=5, hmax=10, nmax=4).map(lambda r: dict(r, organised=True)),
+            gm.recipes2d(types=["TRI3", "TRI6"], hmin=5, hmax=10),
+            gm.recipes2d(types=["QUAD4", "QUAD8"], hmin=5, hmax=10, nmax=4).filter(lambda r: len(r["verts"]) == 4)
+            .map(lambda r: dict(r, organised=True)),
             gm.recipes3d(types=["TETRA4", "PRISM6", "HEXA8"], nmax=4)))
         c["vector"] = draw(st.booleans())
         c["slots"] = draw(st.integers(0, 7))  # bit0 C, bit1 M, bit2 F
@@ -539,7 +540,11 @@ def _renum_build(case, mesh):
     simu.add_dirichlet(nodesD, [lambda x, y, z, q=case["dval"][0]: q * (1 + 0.5 * x - 0.25 * y + 0.125 * z)], ["t"])
     if nodesN.size:
         simu.add_neumann(nodesN, [lambda x, y, z: a + b * x + c_ * y], ["t"])
-    simu.add_volumeLoad(mesh.nodes, [d_ + 0.5], ["t"])
+    # body source (add_volumeLoad documents dim 2 and 3 only; a 1D bar takes it as a line load)
+    if mesh.dim == 1:
+        simu.add_lineLoad(mesh.nodes, [d_ + 0.5], ["t"])
+    else:
+        simu.add_volumeLoad(mesh.nodes, [d_ + 0.5], ["t"])
     return simu, 1
 
 
@@ -603,7 +608,7 @@ def check_renumbering(case, rec):
 
 
 SUBS = [
-    Sub("custom_simu_history", check_history, gen=history_cases, quick=60, thorough=250, shards=8),
-    Sub("real_simus", check_real, gen=real_cases_gen, quick=80, thorough=400, shards=6),
-    Sub("renumbering", check_renumbering, gen=renum_cases, quick=60, thorough=400, shards=6),
+    Sub("custom_simu_history", check_history, gen=history_cases, quick=250, thorough=1500, shards=8),
+    Sub("real_simus", check_real, gen=real_cases_gen, quick=200, thorough=1500, shards=6),
+    Sub("renumbering", check_renumbering, gen=renum_cases, quick=200, thorough=1500, shards=6),
 ]
